@@ -170,7 +170,7 @@ func (c *C12Case) facts(refs []outcome) c12Facts {
 // pooled validators and buffers many times).
 func fillerCalls(n int) {
 	for i := 0; i < n; i++ {
-		switch i % 5 {
+		switch i % 7 {
 		case 0:
 			bankCall(i, multiTags[i%3]).prepare().run()
 		case 1:
@@ -179,6 +179,12 @@ func fillerCalls(n int) {
 			_ = valid.Map(map[string]string{"k": strPool[i%len(strPool)], "j": ""}, valid.RM{"k": "ge=2,prefix=a", "j": "required|填写"})
 		case 3:
 			_ = valid.Url("http://x.y/z?k="+fmt.Sprint(i)+"&j=", valid.RM{"k": "int,le=3", "j": "required"})
+		case 5:
+			// the markers of nested validation on a scalar (a rule-writing error) with and without a message
+			_ = valid.Struct(&struct {
+				A string `valid:"exist|filler msg"`
+				B int    `valid:"exist"`
+			}{"x", i + 1})
 		default:
 			_ = valid.ValidNamesSplit("required,re='a,b" + fmt.Sprint(i) + "',to=1~2|x")
 			_ = valid.GetOnlyExplainErr(`"A" input "1", explain: filler; "B" input "", 说明: 填充`)
@@ -493,7 +499,7 @@ func genC12Case(t *rapid.T) *C12Case {
 		}
 	}
 	c.Perm = rapid.Permutation(seq(len(c.Calls))).Draw(t, "perm")
-	c.Filler = rapid.SampledFrom([]int{0, 50, 200, 1000}).Draw(t, "filler")
+	c.Filler = rapid.SampledFrom([]int{0, 50, 200, 1000, 1000, 12500}).Draw(t, "filler") // (12500: beyond any bound near ten thousand)
 	if ev.Thorough() && rapid.IntRange(0, 9).Draw(t, "longTail") == 0 {
 		c.Filler = 10000
 	}
